@@ -61,10 +61,10 @@ void check_content(Ctx& ctx, const S& s, const std::set<uint32_t>& model, const 
 }
 
 // ================================================================== C03
-enum { H_BATCH = 1, H_UPD = 2, H_CONVERT = 3, H_QUERY = 4, H_SERDE = 5, H_RESET = 6, H_COPY = 7, H_FLAT = 8 };
+enum { H_BATCH = 1, H_UPD = 2, H_CONVERT = 3, H_QUERY = 4, H_SERDE = 5, H_RESET = 6, H_COPY = 7, H_FLAT = 8, H_TWINS = 9 };
 struct C03World: World {
   const char* name() const override { return "c03"; }
-  const char* step_name(int k) const override { static const char* n[] = { "?", "batch", "update", "convert", "query", "serde", "reset", "copy", "flat_fill" }; return (k >= 1 && k <= 8) ? n[k] : "step"; }
+  const char* step_name(int k) const override { static const char* n[] = { "?", "batch", "update", "convert", "query", "serde", "reset", "copy", "flat_fill", "twin_coupons" }; return (k >= 1 && k <= 9) ? n[k] : "step"; }
   std::string family_of(const Plan&) const override { return "hll_sketch"; }
   Plan generate(u64 run_seed, int tier) override {
     Plan p; p.run_seed = run_seed; Rng rc(run_seed, "cfg"), rp(run_seed, "plan");
@@ -81,7 +81,8 @@ struct C03World: World {
       else if (roll < 88) s.kind = H_QUERY;
       else if (roll < 94) { s.kind = H_SERDE; s.a = static_cast<i64>(rp.below(8)); s.b = static_cast<i64>(rp.below(2)); }
       else if (roll < 97) { s.kind = H_COPY; s.a = static_cast<i64>(rp.below(8)); s.b = static_cast<i64>(rp.below(8)); }
-      else if (rp.chance(1, 2) && lg_k <= 8) { s.kind = H_FLAT; s.a = static_cast<i64>(rp.below(1000000)); s.b = static_cast<i64>(rp.below(3)); }
+      else if (rp.chance(1, 3) && lg_k <= 8) { s.kind = H_FLAT; s.a = static_cast<i64>(rp.below(1000000)); s.b = static_cast<i64>(rp.below(3)); }
+      else if (rp.chance(1, 2)) { s.kind = H_TWINS; s.a = static_cast<i64>(rp.below(1000000)); s.b = static_cast<i64>(rp.below(8)); }
       else s.kind = H_RESET;
       p.steps.push_back(s);
     }
@@ -123,6 +124,17 @@ struct C03World: World {
         }
         case H_COPY: { size_t i = static_cast<size_t>(s.a) % sk.size(), j = static_cast<size_t>(s.b) % sk.size(); if (same_order[i] == same_order[j] && (i < 3) == (j < 3) && (i >= 3 && i < 5) == (j >= 3 && j < 5)) { ds::target_hll_type t = sk[j].get_target_type(); sk[j] = S(sk[i], t); } ctx.nontrivial = true; break; }
         case H_RESET: { for (S& x : sk) x.reset(); model.clear(); batches.clear(); break; }
+        case H_TWINS: {   // adversarial stream: after a reset, two inputs whose coupons share all 26 address bits and differ in the value (found by a birthday
+          // search on the independent hash), the smaller value first, among the first few distinct coupons; both coupons are content
+          for (S& x : sk) x.reset(); model.clear(); batches.clear();
+          std::map<uint32_t, i64> by_addr; i64 tx = 0, ty = 0; bool found = false;
+          for (i64 x = s.a * 1000003; !found && x < s.a * 1000003 + 200000; x++) { const uint32_t c = coupon_i64(x); auto it = by_addr.find(c & 0x3ffffff);
+            if (it == by_addr.end()) by_addr[c & 0x3ffffff] = x; else if ((coupon_i64(it->second) >> 26) != (c >> 26)) { tx = it->second; ty = x; found = true; } }
+          if (!found) break;
+          if ((coupon_i64(tx) >> 26) > (coupon_i64(ty) >> 26)) std::swap(tx, ty);
+          std::vector<i64> seq; for (i64 f = 0; f < s.b % 4; f++) seq.push_back(s.a + 7 + f); seq.push_back(tx); if (s.b & 4) seq.push_back(s.a + 99); seq.push_back(ty);
+          for (i64 x : seq) { model.insert(coupon_i64(x)); for (S& sx : sk) sx.update(static_cast<int64_t>(x)); }
+          ctx.probe("twin_coupons"); ctx.nontrivial = true; break; }
         case H_FLAT: {   // adversarial stream: after a reset, exactly one input per slot, all with the same register value v (1..3), found by searching the
           // independent hash; every register then equals v, which is the state in which HLL_4's cur_min has shifted with no slot left at the minimum
           for (S& x : sk) x.reset(); model.clear(); batches.clear();
